@@ -422,7 +422,10 @@ pub fn lockstep(case: &ExecCase, cfg: &LockCfg, obs: &mut Obs) -> Result<LockSum
                 }
                 None => vm.pc += 1,
             }
-            // C05 bounds after every executed operation.
+        }
+        // C05 bounds after every executed operation - also one that returned an error: the machine is a public, reusable
+        // value, so the state a failed operation leaves behind is a reachable state like any other.
+        {
             let rs = vm_state(&vm);
             sum.max_stack = sum.max_stack.max(rs.stack.len());
             sum.max_memory = sum.max_memory.max(rs.memory.len());
@@ -611,6 +614,29 @@ pub fn run_model_calls(case: &ExecCase, budget: u64, breadth_cap: i64) -> (mvm::
     }
     let r = m.run();
     (r, m.st.clone(), m.gas, m.executed_total, env.cost_calls.get())
+}
+
+/// Gas of the model machine right after its first top-level Compute joined successfully (None if there is none).
+pub fn model_gas_after_first_compute(case: &ExecCase, budget: u64, breadth_cap: i64) -> Option<u128> {
+    let mviews = ModelViews::from_spec(&case.state);
+    let costs = case.costs.clone();
+    let cost_fn = move |op: &MOp| costs.cost(op);
+    let env = mvm::Env {
+        solutions: &case.solutions,
+        index: case.index,
+        state: &mviews,
+        cost: &cost_fn,
+        steps_left: Cell::new(budget),
+        breadth_cap,
+        cost_calls: Cell::new(0),
+    };
+    let mut m = Machine::new(&case.prog, case.init.clone(), &env, case.limit);
+    if let Some(pm) = &case.parent {
+        m.pmem = Some(pm);
+        m.in_child = true;
+    }
+    let _ = m.run();
+    m.compute_log.first().filter(|c| c.ok).map(|c| c.gas_after)
 }
 
 pub fn vm_state_tail(v: &[i64]) -> &[i64] {
